@@ -316,7 +316,7 @@ func c11IsZeroVal(st *c11St, v *c11V) bool {
 		return true
 	case "struct":
 		o := st.heap[v.id]
-		return o != nil && len(o.f) == 0 && !o.unkey
+		return o != nil && len(o.f) == 0 && !o.unkey && o.base == nil && o.hv == ""
 	}
 	return false
 }
